@@ -165,3 +165,16 @@ Definition gval_eqb (a b : gval) : bool :=
   | VSlice t x, VSlice u y => stype_eqb t u && list_eqb sval_eqb x y
   | _, _ => false
   end.
+
+(* ------------------------------------------------------------------ several parameters of one request *)
+(* The clause about a failing parameter is quantified over every parameter of the request: the 422 answer
+   names exactly the parameters that are rejected when judged one by one (judge = the single-parameter
+   outcome for this request), whatever the others do and in whatever order they are visited. *)
+Definition rejected (o : outcome) : bool := match o with R422 _ _ => true | _ => false end.
+
+Definition rejected_names (judge : decl -> option nat -> outcome) (ps : list (decl * option nat)) : list bytes :=
+  map (fun p => d_name (fst p)) (filter (fun p => rejected (judge (fst p) (snd p))) ps).
+
+Definition names_incl (a b : list bytes) : bool := forallb (fun x => existsb (bytes_eqb x) b) a.
+(* equality of two lists of names as sets *)
+Definition same_names (a b : list bytes) : bool := names_incl a b && names_incl b a.
